@@ -318,6 +318,10 @@ class Ctx:
                         f.write(json.dumps(ev2 if j == i else events[j], separators=(',', ':')) + '\n')
                 rej = self._run_trace(module, cfg, bad, label + '-selftest', timeout, deque)
                 if not any(r['reject'] == i - lo + 1 for r in rej):
+                    if (i - lo + 1) in getattr(self, 'last_skips', set()):
+                        # the trace module does not judge this event (its run leaves the model): corrupt another one
+                        self.cov['trace_events_outside_model'] -= len(self.last_skips)
+                        continue
                     raise MachineryError(f'{label}: binding self-test failed: corrupted event {i + 1} was accepted')
                 self.cov.setdefault('selftest', []).append({'label': label, 'corrupted_event': i + 1, 'rejected': True})
                 self.log(f'{label}: binding self-test ok (corrupted event {i + 1} rejected)')
@@ -382,6 +386,7 @@ class Ctx:
         if os.path.exists(self.path(cap)):
             rej = [json.loads(x) for x in open(self.path(cap)) if x.strip()]
         self.cov['trace_events_outside_model'] = self.cov.get('trace_events_outside_model', 0) + sum(1 for r in rej if 'skip' in r)
+        self.last_skips = {r['skip'] for r in rej if 'skip' in r}      # lines the trace module declared outside the model
         return [r for r in rej if 'reject' in r]
 
     # --------------------------------------------------------------- verdict
